@@ -1,0 +1,23 @@
+//go:build verif
+
+package contains
+
+// Contracts for the contains plugin (C14, C01, C09), read by /verif's gvc.
+
+//@ func canEqual(tt types.Type) (r bool)
+//@ abstract: pred flat
+
+//@ func (g *gen) Add(name string, typs []types.Type) (r string, err error)
+//@ param typs: len=0,1,2,3
+//@ param name: classes=Ident
+
+//@ func (g *gen) Generate(typs []types.Type) (err error)
+//@ param typs: len=1
+
+//@ func (g *gen) genFuncFor(typ *types.Slice) (err error)
+//@ emits: decls
+//@ serves: contains len=1 typ=typs[0]
+//@ o-sig: (list []$elem(typ), item $elem(typ)) (r bool)
+//@ o-pure
+//@ o-ensures: [contains] r <==> exists j int :: 0 <= j && j < len(list) && EqC(elem(typ), list[j], item)
+//@ o-loop: 1: invariant forall j int :: 0 <= j && j < $i ==> !EqC(elem(typ), list[j], item)
